@@ -1,6 +1,7 @@
 package main
 
 import (
+	"math"
 	"encoding/json"
 
 	"github.com/knz/shakespeare/pkg/cmd"
@@ -66,9 +67,20 @@ func init() {
 		if err := json.Unmarshal(raw, &a); err != nil {
 			return nil, err
 		}
+		// JSON has no NaN: the string "NaN!" stands for it, in and out
+		for i, v := range a.Values {
+			if sv, ok := v.(string); ok && sv == "NaN!" {
+				a.Values[i] = math.NaN()
+			}
+		}
 		r, e := cmd.VerifCollect(a.Mode, a.N, a.Values)
 		if r == nil {
 			r = []interface{}{}
+		}
+		for i, v := range r {
+			if f, ok := v.(float64); ok && math.IsNaN(f) {
+				r[i] = "NaN!"
+			}
 		}
 		return map[string]interface{}{"res": r, "err": e}, nil
 	})
